@@ -2,10 +2,12 @@ package props
 
 import (
 	"fmt"
+	yaml "gopkg.in/yaml.v2"
 	"reflect"
 	"sort"
 	"strconv"
 	"strings"
+	"verifmc/univ"
 
 	"github.com/osteele/liquid"
 	"github.com/osteele/liquid/values"
@@ -512,6 +514,88 @@ func c15Families(tier string) []explore.Family {
 			}
 		}})
 	}
+	// ordered maps (yaml.MapSlice) are accepted as arrays. WHICH array an ordered map stands for (its values, or
+	// its [key, value] pairs) is not stated, so the law is representation-agnostic: every filter must see the same
+	// array view of it. With e = a | reverse | reverse (the view, materialised as a generic slice by the
+	// implementation itself), every pipeline P gives a | P == e | P, for the map by value, by pointer and in a Drop.
+	pairKeys := []any{"a", "b", "c", 1}
+	pairVals := []any{1, "x", nil, []any{2, 1}}
+	omLen := 3
+	if tier == "thorough" {
+		omLen = 4
+	}
+	nPair := len(pairKeys) * len(pairVals)
+	fams = append(fams, explore.Family{Name: "ordered-map-as-array", Count: seqCount(nPair, omLen) * int64(len(pipes)), Run: func(i int64, r *explore.Rec) {
+		p := pipes[i%int64(len(pipes))]
+		idx := seqAt(nPair, i/int64(len(pipes)))
+		for a := range idx { // keys of an ordered map are distinct
+			for b := a + 1; b < len(idx); b++ {
+				if idx[a]/len(pairVals) == idx[b]/len(pairVals) {
+					return
+				}
+			}
+		}
+		f := filters[p.f]
+		spelling := f.name
+		scalar := f.scalar
+		if p.g >= 0 {
+			spelling += " | " + filters[p.g].name
+			scalar = filters[p.g].scalar
+		}
+		show := func(v string) string {
+			if scalar {
+				return "{{ " + v + " | " + spelling + " }}"
+			}
+			return "{% assign r = " + v + " | " + spelling + " %}{% for x in r %}[{{ x }}]{% endfor %}/{{ r | size }}"
+		}
+		src := "{% assign e = a | reverse | reverse %}" + show("a") + "#" + show("e") + "#{{ a | size }}/{{ e | size }}/{% for x in e %}i{% endfor %}"
+		ms := func() yaml.MapSlice {
+			var out yaml.MapSlice
+			for _, k := range idx {
+				out = append(out, yaml.MapItem{Key: pairKeys[k/len(pairVals)], Value: pairVals[k%len(pairVals)]})
+			}
+			return out
+		}
+		reprs := []struct {
+			name  string
+			build func() any
+		}{
+			{"yaml.MapSlice", func() any { return ms() }},
+			{"*yaml.MapSlice", func() any { m := ms(); return &m }},
+			{"Drop{yaml.MapSlice}", func() any { return univ.Drop{V: ms()} }},
+		}
+		for _, rp := range reprs {
+			r.Eval()
+			r.Transition()
+			r.Trace()
+			av := rp.build()
+			before := explore.Snapshot(av)
+			o := c15Render(src, map[string]any{"a": av, "other": []any{9, "z", nil}})
+			desc := func() any {
+				return map[string]any{"template": src, "ordered_map": fmt.Sprint(ms()), "representation": rp.name, "other": `[9,"z",nil]`}
+			}
+			if explore.Snapshot(av) != before {
+				r.Violation("input-modified:"+spelling+":"+rp.name, desc(), "the bound value is unchanged", "changed")
+			}
+			if o.Panic != nil {
+				r.Violation("fails:"+spelling+":"+rp.name, desc(), "output or error", o.String())
+				continue
+			}
+			r.Class("ordered-map/" + o.Class())
+			if o.Err != nil {
+				continue // the pipeline fails on this content (e.g. map: on scalars); totality is C01's business
+			}
+			parts := strings.Split(o.Out, "#")
+			if len(parts) != 3 || parts[0] != parts[1] {
+				r.Violation("representation:ordered-map:"+spelling, desc(), "a | P renders as e | P where e = a | reverse | reverse", o.Out)
+				continue
+			}
+			if sz := strings.Split(parts[2], "/"); len(sz) != 3 || sz[0] != sz[1] || sz[1] != strconv.Itoa(len(sz[2])) {
+				r.Violation("representation:ordered-map:size", desc(), "a | size == e | size == number of elements of e", parts[2])
+			}
+		}
+	}})
+
 	// scaled family: lengths far beyond the exhaustive bound (thresholds such as 8, 16, 32, 64 ...), a few
 	// deterministic patterns per alphabet, every single filter and chain of two
 	lengths := []int{6, 7, 8, 9, 12, 13, 15, 16, 17, 20, 31, 32, 33, 50, 63, 64, 65, 100, 127, 128, 129, 255, 256, 257, 1000}
@@ -624,7 +708,7 @@ func init() {
 		ID:    "C15",
 		Level: "model_checking",
 		Rule: "all arrays of length <=3 (quick) / <=5 (thorough) over six element alphabets (ints, floats, strings, ints+nil, integers beyond 2^53, maps with present/absent/nil key), each in every Go representation that can hold it ([]any, typed slice, fixed array, Range), " +
-			"through each of 13 array filters and all chains of two of them; plus a scaled family: lengths 6..1000 (25 lengths around powers of two) x 5 deterministic patterns per alphabet through every pipeline; oracle = list functions of the reference model, permutation/order predicates for sort, non-mutation of the input inside the render, equality across representations; " +
+			"through each of 13 array filters and all chains of two of them; plus ordered maps (yaml.MapSlice of <=3|4 entries over 4 keys x 4 values, by value, by pointer and in a Drop) under the representation-agnostic law a | P == (a | reverse | reverse) | P for every pipeline P and size agreement; plus a scaled family: lengths 6..1000 (25 lengths around powers of two) x 5 deterministic patterns per alphabet through every pipeline; oracle = list functions of the reference model, permutation/order predicates for sort, non-mutation of the input inside the render, equality across representations; " +
 			"state = (alphabet, length); transition = one pipeline on one representation; trace = one (array, pipeline) validated on the implementation",
 		Assumptions: []string{
 			"sort order between unlike kinds, with nil, and between maps is unspecified (permutation still required); sort stability is not required",
